@@ -5,7 +5,20 @@
 SEED=$(cd "$1" && pwd)
 export GOFLAGS=-mod=mod GOPROXY=off GOSUMDB=off GOTOOLCHAIN=local GOWORK=off
 W=/tmp/vseed-$$
-git -C /repo worktree add --detach "$W" HEAD >/dev/null 2>&1 || { echo "cannot create worktree"; exit 2; }
+# the commit the patch applies to: /repo HEAD, or - when later fix: commits rewrote the same lines and the
+# seed could not be re-applied mechanically - the newest commit it still applies to (recorded as "base")
+BASE=HEAD
+if ! git -C /repo apply --check "$SEED/patch.diff" >/dev/null 2>&1; then
+  for cmt in $(git -C /repo log --format=%h -n 60); do
+    TW=/tmp/vseed-base-$$
+    git -C /repo worktree add --detach "$TW" "$cmt" >/dev/null 2>&1
+    if (cd "$TW" && git apply --check "$SEED/patch.diff" >/dev/null 2>&1); then BASE=$cmt; fi
+    git -C /repo worktree remove --force "$TW" >/dev/null 2>&1; rm -rf "$TW"
+    [ "$BASE" != HEAD ] && break
+  done
+  echo "base=$BASE (the patch no longer applies to HEAD)"
+fi
+git -C /repo worktree add --detach "$W" "$BASE" >/dev/null 2>&1 || { echo "cannot create worktree"; exit 2; }
 cleanup() { git -C /repo worktree remove --force "$W" >/dev/null 2>&1; rm -rf "$W" /tmp/clover-test* /tmp/export-dir* 2>/dev/null; }
 trap cleanup EXIT
 place=$(head -1 "$SEED/seed_demo_test.go" | sed -n 's,^// place in: *,,p' | awk '{print $1}' | tr -d '\r')
@@ -27,5 +40,14 @@ echo "demo with patch: exit $with (expect !=0); without patch: exit $without (ex
 rm -f /tmp/vseed-with.$$ /tmp/vseed-without.$$ "$W/$place/seed_demo_test.go"
 ( cd "$W" && git apply "$SEED/patch.diff" )
 echo "--- checks on the patched tree:"
-/verif/bin/cloverlint -property all -tier quick -repo "$W" -verif /verif -no-evidence 2>&1 | grep -E "^(VIOLATED|UNDECIDED|C[0-9]+ VIOLATED|CHECKER)" | sed "s,$W/,,g" | cut -c1-400
+if [ "$BASE" = HEAD ]; then
+  /verif/bin/cloverlint -property all -tier quick -repo "$W" -verif /verif -no-evidence 2>&1 | grep -E "^(VIOLATED|UNDECIDED|C[0-9]+ VIOLATED|CHECKER)" | sed "s,$W/,,g" | cut -c1-400
+else
+  # an older base lacks later fixes: report only what the unpatched base does not already raise
+  /verif/bin/cloverlint -property all -tier quick -repo "$W" -verif /verif -no-evidence 2>&1 | grep -E "^(VIOLATED|UNDECIDED|CHECKER)" | sed "s,$W/,,g" | sed -E 's/ at [^ ]+:[0-9]+:[0-9]+:.*//' | sort -u > /tmp/vseed-p.$$
+  ( cd "$W" && git apply -R "$SEED/patch.diff" )
+  /verif/bin/cloverlint -property all -tier quick -repo "$W" -verif /verif -no-evidence 2>&1 | grep -E "^(VIOLATED|UNDECIDED|CHECKER)" | sed "s,$W/,,g" | sed -E 's/ at [^ ]+:[0-9]+:[0-9]+:.*//' | sort -u > /tmp/vseed-b.$$
+  grep -vxF -f /tmp/vseed-b.$$ /tmp/vseed-p.$$ | sed 's,$,/ (on base),' | cut -c1-400
+  rm -f /tmp/vseed-p.$$ /tmp/vseed-b.$$
+fi
 echo "--- end"
